@@ -1125,6 +1125,7 @@ def _run_path(it, func_node, body, conds):
     out_cases = []
     result_name = None
     out = None
+    backwards = False
     for st in body:
         # activate conditions as soon as their operands are known
         still = []
@@ -1208,12 +1209,21 @@ def _run_path(it, func_node, body, conds):
             r = _outer_loop(it, st, env)
             if r is not None:
                 result_name, out = r
+                # a loop that walks the samples backwards leaves its output list in backward order
+                backwards = it.range_of(st.iter, env) is not None and it.range_of(st.iter, env)[2] < 0
             continue
         if isinstance(st, ast.Expr) and isinstance(st.value, ast.Call) and isinstance(st.value.func, ast.Attribute) and st.value.func.attr == 'reverse':
+            if result_name is not None and ast.unparse(st.value.func.value) == result_name:
+                backwards = not backwards
             continue
         if isinstance(st, ast.Return):
             v = st.value
+            if result_name is not None and ast.unparse(v) in ('%s[::-1]' % result_name, 'list(reversed(%s))' % result_name):
+                backwards = not backwards
+                v = ast.Name(id=result_name, ctx=ast.Load())
             if isinstance(v, ast.Name) and v.id == result_name:
+                it.require(Aff.const(-1 if backwards else 0), 'the values are returned in the order of the samples (the sample loop runs %s and its output list is %s)'
+                           % (('backwards', 'not reversed before it is returned') if backwards else ('forwards', 'returned as built')), st.lineno)
                 # one value per iteration of the sample loop: position t ranges over the trace
                 out_cases.append(([Aff.sym('t'), Aff.sym('n') - Aff.const(1) - Aff.sym('t')], canonical(out)))
                 break
